@@ -2,6 +2,9 @@
 """Writes MANIFEST.json. The list DONE names the properties whose checks exist."""
 import json, subprocess
 DONE = {
+ "C02": ("exploration", "reference-model monitor: fold(v,P,Q) vs parse_Q(print_P(v)) over all 576 printer sets x compatible parser sets + independent Emacs Lisp reference reader",
+         "fold() encodes the documented dialect folding (nil/t/false/empty-bytes); for every printer option set and the parser option sets that recognise its output (all ~83k pairs in thorough, 6 sampled per printer set in quick) generated values with names plain for the pair must read back as fold(v); the elisp()/elisp() pair is additionally read by an independent reader of the documented Emacs Lisp subset.",
+         "trusted: fold(), the compatibility predicate, the Emacs Lisp reference reader", "4/C02"),
  "C10": ("exploration", "differential monitor: next_value vs next_datum item sequences + lock-step Ref-accessor walk against Value accessors",
          "On generated, malformed and layout-rich inputs with option sets drawn from all 1536 and three sources, the item sequences of the two APIs are compared item by item (value, first error incl. message and location, end of input); every sub-datum reachable through list_iter/vector_iter/as_pair is walked with the Ref accessors in lock-step with the Value accessors (peek, is_empty, the None/tail/None protocol, pointer identity of exposed values).",
          "trusted: the lock-step walker", "4/C10"),
